@@ -78,7 +78,7 @@ Fixpoint rdict (l : list node) (acc : list (value * value)) (pending : option va
       let is_sp := match x with NStruct _ sp _ _ => is_some sp | NVal parts => value_is_spread parts end in
       if is_sp then
         if is_some pending then RErr ETemplateSyntax
-        else match v with VDict d => rdict r (dict_update acc d) pending | _ => RErr EType end
+        else match dict_update_any acc v with ROk acc' => rdict r acc' pending | RErr e => RErr e end
       else
         match pending with
         | None => rdict r acc (Some v)
@@ -117,8 +117,7 @@ Fixpoint ddict (ents : list (option leaf * sval)) (acc : list (value * value)) :
   | (None, x) :: r =>
     match den_val ev x with
     | RErr e => RErr e
-    | ROk (VDict d) => ddict r (dict_update acc d)
-    | ROk _ => RErr EType
+    | ROk d => match dict_update_any acc d with ROk acc' => ddict r acc' | RErr e => RErr e end
     end
   end.
 Lemma den_list items : den_val ev (SList items) = dlist items [].
@@ -188,7 +187,7 @@ Proof.
         destruct (den_val ev x) as [d|e]; [|reflexivity].
         assert (Hns : match ast_val (Some SpStar2) x with NStruct _ sp _ _ => is_some sp | NVal parts => value_is_spread parts end = true).
         { destruct x as [l| |]; try reflexivity. cbn [ast_val value_is_spread parts_of_leaf]. rewrite p_spread_atom. reflexivity. }
-        rewrite Hns. cbn [is_some]. destruct d; try reflexivity.
+        rewrite Hns. cbn [is_some]. destruct (dict_update_any acc d); [|reflexivity].
         apply IHe; [intros p Hp; apply Hsz; right; exact Hp | exact Hk]. }
     apply Hgo; [|exact Hok].
     intros p Hp. pose proof (fold_sum_in (fun p => vsize (snd p)) ents p Hp). cbn beta in *. lia.
@@ -623,7 +622,7 @@ Proof.
         destruct (den_val ev x) as [d|e]; [|reflexivity]. destruct (hashable kv); [|reflexivity].
         apply IHe. intros p Hp. apply Hsz. right. exact Hp.
       - rewrite (IH x (Hsz (None, x) (or_introl eq_refl))).
-        destruct (den_val ev x) as [d|e]; [|reflexivity]. destruct d; try reflexivity.
+        destruct (den_val ev x) as [d|e]; [|reflexivity]. destruct (dict_update_any acc d); [|reflexivity].
         apply IHe. intros p Hp. apply Hsz. right. exact Hp. }
     apply Hgo. intros p Hp. pose proof (fold_sum_in (fun p => vsize (snd p)) ents p Hp). cbn beta in *. lia.
 Qed.
